@@ -1,3 +1,6 @@
 import GapicModel.Regex.Syntax
 import GapicModel.Regex.Match
+import GapicModel.Lemmas.Regex
 import GapicModel.Bridge.All
+import GapicModel.Driver
+import GapicModel.Props.C19
